@@ -113,11 +113,16 @@ class FieldData:
       t = self._field_datatype(fieldname)
       if t != "Z" and t != "seq":
         # value was not parsed or was set to a string by the user
-        self._data[fieldname] = gfapy.Field._parse_gfa_field(v, t,
-                                                    safe = (self.vlevel >= 1),
-                                                    fieldname = fieldname,
-                                                    line = self)
-        return self._data[fieldname]
+        parsed = gfapy.Field._parse_gfa_field(v, t,
+                                              safe = (self.vlevel >= 1),
+                                              fieldname = fieldname,
+                                              line = self)
+        if isinstance(parsed, str) and t == "J":
+          # a JSON string (unchecked, level 0): stored, it would be taken
+          # for an unparsed field and parsed again at the next access
+          return parsed
+        self._data[fieldname] = parsed
+        return parsed
       else:
         if (self.vlevel >= 3):
           gfapy.Field._validate_gfa_field(v, t, fieldname)
